@@ -93,6 +93,15 @@ func (g *Global) Type() types.Type {
 		g.Typ = types.NewPointer(g.ContentType)
 		g.Typ.AddrSpace = g.AddrSpace
 	}
+	if g.Typ.AddrSpace != g.AddrSpace {
+		// The address space was assigned after the type was cached (the
+		// constructors take no address space): the type follows the field. The
+		// cache is left alone, since Type is called while printing, possibly
+		// from several goroutines.
+		typ := types.NewPointer(g.Typ.ElemType)
+		typ.AddrSpace = g.AddrSpace
+		return typ
+	}
 	return g.Typ
 }
 
